@@ -16,6 +16,8 @@ def ask_sequence(c, cache_size=1024, storage='memory'):
     st = MemoryStorage()
     for p in pols:
         st.add(p)
+    if c.get('mode') == 'cached_reuse':
+        return ask_reusing_one_inquiry(c, st, pols, cache_size)
     g = Guard(st, specs.mk_checker(c['checker'], cache_size))
     inqs = [specs.mk_inquiry(q) for q in c['inquiries']]
     before_p = [guardlib.snapshot_policy(p) for p in pols]
@@ -61,13 +63,39 @@ def mixed_tags(rng, pols, inqs):
             q[name] = q[name] + alt[1]
 
 
+def ask_reusing_one_inquiry(c, st, pols, cache_size):
+    """a guard with the decision cache; ONE long-lived Inquiry object whose fields are overwritten before every question
+    (a request object that is recycled): asking must leave nothing on the inquiry that a later answer depends on"""
+    from vakt.cache import create_cached_guard
+    g = create_cached_guard(st, specs.mk_checker(c['checker'], cache_size), maxsize=16)[0]
+    before_p = [guardlib.snapshot_policy(p) for p in pols]
+    shared = None
+    answers, same_q = [], True
+    for k in c['order']:
+        inq = specs.mk_inquiry(c['inquiries'][k])
+        if shared is None:
+            shared = inq
+        else:
+            shared.resource, shared.action = inq.resource, inq.action
+            shared.subject, shared.context = inq.subject, inq.context
+        want = guardlib.snapshot_inquiry(inq)
+        try:
+            r = g.is_allowed(shared)
+            answers.append(s_bool(r) if (r is True or r is False) else '<%r>' % (r,))
+        except BaseException as e:  # noqa
+            answers.append(s_exc(e))
+        same_q = same_q and guardlib.snapshot_inquiry(shared) == want
+    after_p = [guardlib.snapshot_policy(p) for p in st.policies.values()]
+    return answers, before_p == after_p, same_q
+
+
 class HistoryStream(Stream):
     name = 'inquiry_histories'
     imports = guardlib.GUARD_IMPORTS
     case_type = 'hcase'
     run_fn = 'run_history'
     rule = ('a fixed generated policy set, a pool of 2-5 inquiries, and a sequence (<= 12 quick / 25 thorough) of '
-            'asks with repeats, per checker; every answer is compared with the model and (oracle) with a fresh '
+            'asks with repeats, per checker (every fifth history through a cached guard with one recycled Inquiry object); every answer is compared with the model and (oracle) with a fresh '
             'guard asked only that inquiry, for regex compile-cache capacities 1024/None/0/1/2; deep snapshots '
             '(types included) of stored policies and inquiries before/after. non-trivial = sequence with a '
             'repeated inquiry and both answers occurring')
@@ -92,7 +120,10 @@ class HistoryStream(Stream):
             order = [rng.randrange(len(inqs)) for _ in range(rng.randint(2, maxlen))]
             if ck == 'CRegex' and rng.random() < 0.3:
                 mixed_tags(rng, sc['policies'], inqs)
-            yield {'checker': ck, 'policies': sc['policies'], 'rxtable': table, 'inquiries': inqs, 'order': order}
+            case = {'checker': ck, 'policies': sc['policies'], 'rxtable': table, 'inquiries': inqs, 'order': order}
+            if k % 5 == 4:
+                case['mode'] = 'cached_reuse'
+            yield case
 
     def emit(self, c):
         qs = [specs.e_inquiry(c['inquiries'][k]) for k in c['order']]
@@ -111,7 +142,7 @@ class HistoryStream(Stream):
             return 'asking for decisions modified an inquiry'
         fresh = {}
         for k in set(c['order']):
-            fresh[k] = ask_sequence(dict(c, order=[k]))[0][0]
+            fresh[k] = ask_sequence(dict(c, order=[k], mode=None))[0][0]
         for pos, k in enumerate(c['order']):
             if ans[pos] != fresh[k]:
                 return ('answer %d (inquiry #%d) is %s after this history but %s on a fresh guard'
@@ -153,7 +184,7 @@ ASSUME = ['custom checkers / rules that keep state of their own are outside the 
 
 def main(argv):
     return run_check('C16', [HistoryStream()], argv, trusted_base=TRUSTED, assumptions=ASSUME,
-                     translated=('checker', 'parser', 'guard', 'policy', 'rules', 'pin_rules', 'pin_util'))
+                     translated=('checker', 'parser', 'guard', 'policy', 'rules', 'pin_inquiry', 'pin_rules', 'pin_util'))
 
 
 if __name__ == '__main__':
